@@ -42,6 +42,7 @@ func Suite(prop, tier string) []qx.SuiteItem {
 			Threads: [][]callSpec{{{Msgs: []msgSpec{m(0)}}}, {{Msgs: []msgSpec{m(0), m(0)}}}}, Faults: []string{"err:6", "lost"}}, b)
 		add(&WS{Name: "fine-async-1thr", BatchSize: 2, MaxAttempts: 2, Acks: kafka.RequireOne, WriterTopic: "A", Fine: true, Async: true,
 			Threads: [][]callSpec{{{Msgs: []msgSpec{m(0)}}, {Msgs: []msgSpec{m(0), m(0)}}}}, Faults: []string{"err:6", "lost"}}, b)
+		items = append(items, qx.SuiteItem{Scn: transportScenario(prop, b), Bound: b})
 	case "C08":
 		// Message.totalSize of a message with 1-byte key and value "tXcYmZ|"+pad: 4+1+1+8+4+4 +1(hdr count) + 1 + (7+pad) = 31+pad
 		add(&WS{Name: "bytes-boundary", BatchSize: 10, BatchBytes: 100, MaxAttempts: 2, Acks: kafka.RequireOne, WriterTopic: "A",
